@@ -85,6 +85,15 @@ def generate(tape, tier="quick"):
                 o["info"] = "connect"
             if any(i["pull"] for i in c["inputs"]) and tape.chance(1, 3):
                 o["data"] = "computed"
+            kind = tape.weighted([("push", 8), ("static", 1), ("callback", 1)])
+            if kind == "static" and o["info"] == "known":
+                o["okind"] = "static"
+            elif kind == "callback":
+                o["okind"] = "callback"
+                o["info"] = "known"
+    for ln in links:
+        if comps[ln["src"][0]]["outputs"][ln["src"][1]].get("okind") in ("static", "callback"):
+            ln.pop("chain", None)        # time adapters need timed publications / notifications
     driver = "real" if tape.chance(1, 2) else "sched"
     sc = {"engine": "E2", "components": comps, "links": links, "driver": driver,
           "listing": tape.shuffle(list(range(n))), "link_order": tape.shuffle(list(range(len(links)))),
